@@ -2,8 +2,8 @@
 #pragma once
 #include "fixture.h"
 
-enum { CONC_NBODIES = 10 };
-static const char *CONC_BODY_NAMES[CONC_NBODIES] = { "parse(own text)", "resolve(shared ref, shared base)", "shorten(shared source, shared base)", "maskRequired(shared)", "toString(shared)", "equals(shared, shared)", "dissectQuery(shared text)", "composeQuery(shared list)", "normalize(own copy)", "makeOwner(own)" };
+enum { CONC_NBODIES = 13 };
+static const char *CONC_BODY_NAMES[CONC_NBODIES] = { "parse(own text)", "resolve(shared ref, shared base)", "shorten(shared source, shared base)", "maskRequired(shared)", "toString(shared)", "equals(shared, shared)", "dissectQuery(shared text)", "composeQuery(shared list)", "normalize(own copy)", "makeOwner(own)", "escape+unescape(own buffers)", "filename conversions(own buffers)", "wchar_t: parse+normalize+resolve+toString(own)" };
 
 struct ConcWorld {
     UriMemoryManager *mm;          // manager used for every allocation of the bodies (NULL = libc)
@@ -34,6 +34,15 @@ struct ConcWorld {
         case 7: { char buf[128]; int w = -1, need = -1; rc = uriComposeQueryCharsRequiredA(qlist, &need); int rc2 = uriComposeQueryA(buf, qlist, sizeof buf, &w); return fmt("rc=%d/%d need=%d w=%d ", rc, rc2, need, w) + buf; }
         case 8: { const char *t = messy.text.c_str(); rc = mm ? uriParseSingleUriExMmA(&u, t, t + strlen(t), &ep, mm) : uriParseSingleUriA(&u, t, &ep); int rc2 = mm ? uriNormalizeSyntaxExMmA(&u, 63, mm) : uriNormalizeSyntaxA(&u); int tt; r = fmt("rc=%d/%d ", rc, rc2) + observe<char>(u).key() + " " + to_text<char>(u, &tt); if (mm) uriFreeUriMembersMmA(&u, mm); else uriFreeUriMembersA(&u); return r; }
         case 9: { const char *t = ip4.text.c_str(); rc = mm ? uriParseSingleUriExMmA(&u, t, t + strlen(t), &ep, mm) : uriParseSingleUriA(&u, t, &ep); int rc2 = mm ? uriMakeOwnerMmA(&u, mm) : uriMakeOwnerA(&u); int tt; r = fmt("rc=%d/%d ", rc, rc2) + observe<char>(u).key() + " " + to_text<char>(u, &tt); if (mm) uriFreeUriMembersMmA(&u, mm); else uriFreeUriMembersA(&u); return r; }
+        case 10: { char in[40], out[256]; snprintf(in, sizeof in, "a b\r\n%c~/%%\xc3\xa4+", '0' + slot); char *e1 = uriEscapeA(in, out, URI_TRUE, URI_TRUE); char *e2 = uriEscapeExA(in, in + strlen(in), out + 128, URI_FALSE, URI_FALSE);
+            r = Str((const char *)out, (const char *)e1) + "|" + Str((const char *)(out + 128), (const char *)e2) + "|"; const char *u1 = uriUnescapeInPlaceExA(out, URI_TRUE, URI_BR_TO_LF); const char *u2 = uriUnescapeInPlaceA(out + 128); return r + Str((const char *)out, u1) + "|" + Str((const char *)(out + 128), u2); }
+        case 11: { char name[40], us[160], back[160]; snprintf(name, sizeof name, "C:\\dir %c\\f#%%.txt", '0' + slot); rc = uriWindowsFilenameToUriStringA(name, us); int rc2 = uriUriStringToWindowsFilenameA(us, back); r = fmt("rc=%d/%d ", rc, rc2) + us + " " + back;
+            snprintf(name, sizeof name, "/tmp/%c x/\xff?", '0' + slot); rc = uriUnixFilenameToUriStringA(name, us); rc2 = uriUriStringToUnixFilenameA(us, back); return r + fmt(" rc=%d/%d ", rc, rc2) + us + " " + back; }
+        case 12: { std::wstring t = widen<wchar_t>(Str("S://U%41@H.X:8") + (char)('0' + slot) + "/%7e/./A/../b?Q%41#%2f"), bt = widen<wchar_t>("s://[::1]/a/b"); UriUriW wu, wb, wd; const wchar_t *wep = 0;
+            rc = mm ? uriParseSingleUriExMmW(&wu, t.data(), t.data() + t.size(), &wep, mm) : uriParseSingleUriExW(&wu, t.data(), t.data() + t.size(), &wep); int rcb = mm ? uriParseSingleUriExMmW(&wb, bt.data(), bt.data() + bt.size(), &wep, mm) : uriParseSingleUriExW(&wb, bt.data(), bt.data() + bt.size(), &wep);
+            int rc2 = mm ? uriNormalizeSyntaxExMmW(&wu, 63, mm) : uriNormalizeSyntaxW(&wu); int rc3 = mm ? uriAddBaseUriExMmW(&wd, &wu, &wb, URI_RESOLVE_STRICTLY, mm) : uriAddBaseUriW(&wd, &wu, &wb); int tt;
+            r = fmt("rc=%d/%d/%d/%d ", rc, rcb, rc2, rc3) + observe<wchar_t>(wu).key() + " " + to_text<wchar_t>(wu, &tt) + " " + (rc3 ? Str("-") : to_text<wchar_t>(wd, &tt));
+            if (mm) { uriFreeUriMembersMmW(&wd, mm); uriFreeUriMembersMmW(&wu, mm); uriFreeUriMembersMmW(&wb, mm); } else { uriFreeUriMembersW(&wd); uriFreeUriMembersW(&wu); uriFreeUriMembersW(&wb); } return r; }
         }
         return "?";
     }
